@@ -117,20 +117,6 @@ theorem logscale_def (x m mn : ℚ) :
   unfold Gen.log_arg Gen.cropbuf_log_arg Gen.cropbuf_m
   constructor <;> ring
 
-theorem logscale_wiring :
-    Gen.cropbuf_min_expr = "np.min(crop_bufs, axis=(-1, -2)) - 1" ∧ Gen.cropbuf_log_out = "crop_bufs" ∧
-    Gen.log_out = "out" ∧ Gen.log_dtype = "np.result_type(data.dtype, np.float32)" := ⟨rfl, rfl, rfl, rfl⟩
-
-/-- which transforms and which shift build the correlation maps -/
-theorem fft_wiring :
-    Gen.fast_corr_shift = "fft.ifftshift" ∧ Gen.fast_corr_inverse = "fft.irfft2" ∧
-    Gen.fast_corr_s = "crop_parts.shape[-2:]" ∧ Gen.fast_corr_axes = "(-2, -1)" ∧
-    Gen.fast_corr_spec = "template * spec_parts" ∧ Gen.fast_corr_fwd = "fft.rfft2(crop_parts)" ∧
-    Gen.full_corr_shift = "fft.ifftshift" ∧ Gen.full_corr_inverse = "fft.irfft2" ∧
-    Gen.full_corr_s = "frame_buf.shape[-2:]" ∧ Gen.full_corr_axes = "(-2, -1)" ∧
-    Gen.full_corr_spec = "template * spec_part" := by
-  refine ⟨rfl, rfl, rfl, rfl, rfl, rfl, rfl, rfl, rfl, rfl, rfl⟩
-
 /-- **`Model.refineCenter` is the generated `refine_center` (which calls the generated
 `center_of_mass`)**: same clip, same guard, same cut-out, same minimum subtraction, same moments. -/
 theorem refine_center_is_generated (corr : ℤ → ℤ → ℚ) (h w cy cx r : ℤ) :
